@@ -15,6 +15,7 @@ A_DROP = "A-DROP: AST destructors have no observable effect (drop glue stubbed t
 A_CLONE = "A-CLONE: Clone of stand-in AST nodes is a bitwise copy (sound because nothing is dropped and cloned nodes are never mutated in place by the visitor; site audit in DESIGN.md 3.4)"
 A_STANDIN = "A-STANDIN: swc_core / css_dataset / regex / indexmap / fnv are replaced by the stand-in crates under /verif/standin (assumed contracts on dependencies; names checked by tools/conformance.py)"
 A_FMT = "A-FMT: format! replaced by a marker model in harnesses that carry the stub (generated identifier texts not checked there)"
+A_EXTRACT = "A-GLUE: the arm bodies / assembly / finalisation of transform_attrs are verified as extracted regions (tools/extract.py, verbatim); that the fold applies the arms to every attribute in order from the declared initial state is checked syntactically by the extractor and, bounded, by the whole-function units of the thorough tier"
 A_PD = "callee contract: directive::parse_directive replaced by its model (own contract: units U-dir*)"
 A_TT = "callee contract: util::transform_text replaced by a marker model (own contract: unit U-text)"
 A_CONST = "callee contract: util::is_jsx_attr_value_constant replaced by an oracle (own contract: unit U-isconst: true only for render-invariant values)"
@@ -31,6 +32,11 @@ TAGS = ["tag_div", "tag_svg", "tag_fragment", "tag_keepalive", "tag_foo_comp", "
 
 UNITS = [
     U("U-ison", ["util::is_on"], ["ison_spec"], ["C13", "C01"], domain="all ASCII strings of length <= 4 (the function reads <= 3 bytes): complete", mem_gb=4, timeout=300),
+    U("U-contract-leaf", ["util::is_on", "directive::is_directive"], ["contract_is_on", "contract_is_directive"], ["C13", "C01", "C04"],
+      domain="Kani function contracts (#[kani::ensures] annotated in place on the build copy, discharged by #[kani::proof_for_contract]): is_on / is_directive == their spec functions for all ASCII names of length <= 4 / <= 3", mem_gb=4, timeout=300),
+    U("U-step-plain-modular", ["VueJsxTransformVisitor::transform_attrs[plain arm]"], ["step_listener_modular"], ["C13"],
+      domain="plain arm for a listener name, with util::is_on replaced by its VERIFIED CONTRACT (#[kani::stub_verified]): the caller is checked against the callee's contract, not its body", mem_gb=6, timeout=600,
+      unwindset={"memcmp.0": 21}, assumes=[A_DROP, A_CLONE, A_TT, A_CONST, A_FMT, A_EXTRACT]),
     U("U-isdir", ["directive::is_directive"], ["isdir_spec_plain", "isdir_spec_namespaced"], ["C04"], domain="all ASCII names of length <= 3 x {plain, namespaced}: complete (reads <= 2 bytes)", mem_gb=4, timeout=300),
     U("U-const", ["patch_flags::PatchFlags", "slot_flag::SlotFlag"], ["const_patch_flags"], ["C13"], domain="constants: complete", mem_gb=4, timeout=300),
     U("U-defaults", ["options::Options::default"], ["options_default"], ["C14"], domain="no input: complete", mem_gb=4, timeout=300, assumes=[A_DROP]),
@@ -39,7 +45,7 @@ UNITS = [
     U("U-isconst-more", ["util::is_jsx_attr_value_constant", "util::is_constant"], [h for h in ISCONST if h not in ISCONST_Q], ["C13"], completeness="bounded", tier="thorough",
       domain="remaining leaf x wrapper combinations, nesting depth <= 2", mem_gb=6, timeout=1200, assumes=[A_DROP, A_CLONE]),
     U("U-tag", ["VueJsxTransformVisitor::transform_tag", "VueJsxTransformVisitor::is_component", "VueJsxTransformVisitor::import_from_vue"],
-      TAGS + ["tag_member", "tag_member_fragment", "tag_member_keepalive", "tag_member_fragment_alias"], ["C01", "C02", "C03", "C08"], domain="9 tag names x {no pattern, ^x-} x symbolic {unresolved, Fragment imported before, 4 options}", mem_gb=8, timeout=900, assumes=[A_DROP, A_CLONE, A_FMT]),
+      TAGS + ["tag_member", "tag_member_fragment", "tag_member_keepalive", "tag_member_fragment_alias"], ["C01", "C02", "C03", "C08"], domain="9 tag names x {no pattern, ^x-} x symbolic {unresolved, 4 options}", mem_gb=6, timeout=900, assumes=[A_DROP, A_CLONE, A_FMT]),
     U("U-tag-fragment", ["VueJsxTransformVisitor::is_component"], ["tag_fragment_not_component"], ["C02", "C03", "C10"], domain="`Fragment` x symbolic history", mem_gb=8, assumes=[A_DROP, A_FMT]),
     U("U-tag-frame", ["VueJsxTransformVisitor::is_component"], ["tagframe_alias_text", "tagframe_foo", "tagframe_div"], ["C10"], domain="2-safety: two visitor states that differ in the Fragment import", mem_gb=8, assumes=[A_DROP, A_FMT]),
     U("U-tag-two-bindings", ["VueJsxTransformVisitor::transform_tag"], ["tag_same_name_two_bindings"], ["C10"], completeness="bounded", tier="thorough", domain="the same tag name with two bindings, either order", mem_gb=24, timeout=3600, assumes=[A_DROP, A_FMT]),
@@ -103,7 +109,6 @@ UNITS += [
 
 STEP_PLAIN = ["step_ref", "step_class", "step_style", "step_key", "step_on", "step_nativeon", "step_onclick_camel", "step_onclick_lower", "step_onupdate_mv", "step_listener", "step_other",
               "step_other_valueless", "step_other_string", "step_class_string", "step_listener_valueless", "step_ref_string"]
-A_EXTRACT = "A-GLUE: the arm bodies / assembly / finalisation of transform_attrs are verified as extracted regions (tools/extract.py, verbatim); that the fold applies the arms to every attribute in order from the declared initial state is checked syntactically by the extractor and, bounded, by the whole-function units of the thorough tier"
 UNITS += [
     U("U-step-plain", ["VueJsxTransformVisitor::transform_attrs[plain arm]", "util::is_on"], STEP_PLAIN, ["C13", "C01"],
       domain="plain-attribute arm from an ARBITRARY analysis state (5 symbolic booleans): 10 name classes x {dynamic, value-less, string} x symbolic {host kind, constness, options}; complete over the shared contract's abstract domain",
